@@ -2,7 +2,7 @@
 
    Models : isdisjoint (request.py:912-919), the "short list" of step 1 of compute_path_dsjctn (730-731),
             deduplicate_disjunctions (1108-1116, with Python's remove-while-iterating semantics),
-            compare_reqs.same_disj + requests_aggregation on ids and groups (985-1057).
+            compare_reqs.same_disj + requests_aggregation on ids and groups (985-1052, as repaired).
    Spec   : links = unordered ROADM pairs crossed by a path, disjoint_ok = validator of a set of returned paths,
             exists_disjoint_pair = decision procedure over the complete enumeration of Model/Route.v,
             covered_ok = validator "every declared pair is still declared after aggregation".
@@ -98,32 +98,37 @@ Fixpoint dd_outer (l : list grp) (i : nat) (fuel : nat) : list grp :=
 Definition deduplicate (l : list grp) : list grp := dd_outer l 0 (S (length l)).
 
 (* ------------------------------------------------------------------ requests_aggregation (ids and groups only)
-   sig = everything compare_reqs compares besides the disjunctions (end points, transponder, lists, ...),
+   sig = everything compare_reqs compares besides the disjunctions (end points, bidir, transponder, lists, ...),
    encoded by the harness as one integer per distinct attribute tuple; mode = tsp_mode is not None *)
 Record areq := mkA { a_id : rid; a_sig : Z; a_mode : bool }.
 
 Fixpoint remove_first (x : rid) (l : list rid) : list rid :=           (* list.remove *)
   match l with [] => [] | y :: t => if zlist_eqb x y then t else y :: remove_first x t end.
 
-(* temp = []; for d in groups containing r: temp.extend(d.members); temp.remove(r) *)
-Definition others (r : rid) (gs : list grp) : list rid :=
-  fold_left (fun temp d => if rid_mem r (members d) then remove_first r (temp ++ members d) else temp) gs [].
 Definition in_some (r : rid) (gs : list grp) : bool := existsb (fun d => rid_mem r (members d)) gs.
+
+(* compare_reqs.same_disj (fix ae92a5de): both requests are declared in groups of the same shape --
+   sorted(sorted(set(d.members) - {r}) for d in groups of r) equal for the two requests,
+   i.e. the same multiset of sets of other members *)
+Fixpoint rid_remove_all (x : rid) (l : list rid) : list rid :=
+  match l with [] => [] | y :: t => if zlist_eqb x y then rid_remove_all x t else y :: rid_remove_all x t end.
+Definition shape (r : rid) (gs : list grp) : list (list rid) :=
+  map (fun d => rid_remove_all r (members d)) (filter (fun d => rid_mem r (members d)) gs).
+Fixpoint take_seteq (a : list rid) (l : list (list rid)) : option (list (list rid)) :=
+  match l with
+  | [] => None
+  | b :: t => if set_eq a b then Some t else match take_seteq a t with Some t' => Some (b :: t') | None => None end
+  end.
+Fixpoint ms_eq (l1 l2 : list (list rid)) : bool :=
+  match l1 with
+  | [] => match l2 with [] => true | _ => false end
+  | a :: t => match take_seteq a l2 with Some l2' => ms_eq t l2' | None => false end
+  end.
 Definition same_disj (r1 r2 : rid) (gs : list grp) : bool :=
   match in_some r1 gs, in_some r2 gs with
-  | true, true => set_eq (others r1 gs) (others r2 gs)
+  | true, true => ms_eq (shape r1 gs) (shape r2 gs)
   | false, false => true
   | _, _ => false
-  end.
-
-(* for this_d in disjlist: if old in this_d: disjlist.remove(this_d)   -- the element after a removed one is skipped *)
-Fixpoint rm_skip (old : rid) (l : list grp) : list grp :=
-  match l with
-  | [] => []
-  | d :: t =>
-      if rid_mem old (members d)
-      then match t with [] => [] | d' :: t' => d' :: rm_skip old t' end
-      else d :: rm_skip old t
   end.
 
 (* state: current id of every original request (by position), positions still in local_list, groups *)
@@ -159,61 +164,13 @@ Definition agg_step (rqs : list areq) (st : astate) (i : nat) : astate :=
       let new := old ++ ri in                                        (* ' | '.join((this_r.id, req.id)) *)
       let gs1 := map (fun d => if rid_mem ri (members d)
                                then mkG (gid d) (remove_first ri (members d) ++ [new]) else d) (s_groups st) in
-      mkS (set_nth j new (s_ids st)) (filter (fun k => negb (Nat.eqb k i)) (s_local st)) (rm_skip old gs1)
+      (* for this_d in disjlist.copy(): if old in this_d: disjlist.remove(this_d)   (fix 1cefb39c) *)
+      mkS (set_nth j new (s_ids st)) (filter (fun k => negb (Nat.eqb k i)) (s_local st))
+          (filter (fun d => negb (rid_mem old (members d))) gs1)
   end.
 
 Definition aggregate (rqs : list areq) (gs : list grp) : astate :=
   fold_left (agg_step rqs) (seq 0 (length rqs)) (mkS (map a_id rqs) (seq 0 (length rqs)) gs).
-
-(* PROPOSED REPAIR of K2 / K3 -- not the code that is in /repo today:
-   same_disj compares the *shape* of the groups (for every group of r1 a group of r2 with the same other members, with
-   multiplicity), and every group naming the absorbing request's old id is deleted (no skipping).
-   Python: sorted(sorted(set(d.members) - {r}) for d in groups of r) compared for equality. *)
-Fixpoint rid_remove_all (x : rid) (l : list rid) : list rid :=
-  match l with [] => [] | y :: t => if zlist_eqb x y then rid_remove_all x t else y :: rid_remove_all x t end.
-Definition shape (r : rid) (gs : list grp) : list (list rid) :=
-  map (fun d => rid_remove_all r (members d)) (filter (fun d => rid_mem r (members d)) gs).
-Fixpoint take_seteq (a : list rid) (l : list (list rid)) : option (list (list rid)) :=
-  match l with
-  | [] => None
-  | b :: t => if set_eq a b then Some t else match take_seteq a t with Some t' => Some (b :: t') | None => None end
-  end.
-Fixpoint ms_eq (l1 l2 : list (list rid)) : bool :=
-  match l1 with
-  | [] => match l2 with [] => true | _ => false end
-  | a :: t => match take_seteq a l2 with Some l2' => ms_eq t l2' | None => false end
-  end.
-Definition same_disj_fixed (r1 r2 : rid) (gs : list grp) : bool :=
-  match in_some r1 gs, in_some r2 gs with
-  | true, true => ms_eq (shape r1 gs) (shape r2 gs)
-  | false, false => true
-  | _, _ => false
-  end.
-Fixpoint agg_find_fixed (rqs : list areq) (st : astate) (i : nat) (cand : list nat) : option nat :=
-  match cand with
-  | [] => None
-  | j :: t =>
-      let ri := id_at (s_ids st) i in
-      let rj := id_at (s_ids st) j in
-      let ai := nth i rqs (mkA [] 0 false) in
-      let aj := nth j rqs (mkA [] 0 false) in
-      if negb (zlist_eqb ri rj) && (a_sig ai =? a_sig aj) && same_disj_fixed ri rj (s_groups st) && a_mode aj
-      then Some j else agg_find_fixed rqs st i t
-  end.
-Definition agg_step_fixed (rqs : list areq) (st : astate) (i : nat) : astate :=
-  match agg_find_fixed rqs st i (s_local st) with
-  | None => st
-  | Some j =>
-      let ri := id_at (s_ids st) i in
-      let old := id_at (s_ids st) j in
-      let new := old ++ ri in
-      let gs1 := map (fun d => if rid_mem ri (members d)
-                               then mkG (gid d) (remove_first ri (members d) ++ [new]) else d) (s_groups st) in
-      mkS (set_nth j new (s_ids st)) (filter (fun k => negb (Nat.eqb k i)) (s_local st))
-          (filter (fun d => negb (rid_mem old (members d))) gs1)
-  end.
-Definition aggregate_fixed (rqs : list areq) (gs : list grp) : astate :=
-  fold_left (agg_step_fixed rqs) (seq 0 (length rqs)) (mkS (map a_id rqs) (seq 0 (length rqs)) gs).
 
 (* ids of the requests that are left (local_list), in order *)
 Definition final_ids (st : astate) : list rid := map (id_at (s_ids st)) (s_local st).
